@@ -68,6 +68,8 @@ Vector ==
    apply |-> [a \in Actors |-> [i \in 1..(MaxCounter + 3) |-> [c EXCEPT ![a] = Max2(@, i - 1)]]],
    vop |-> [a \in Actors |-> [i \in 1..(MaxCounter + 3) |-> ValidateD(c, a, i - 1)]],
    inc |-> [a \in Actors |-> c[a] + 1],
+   \* VClock::from(dot): the clock that has seen exactly the events of that dot's actor up to the dot
+   single |-> [a \in Actors |-> [i \in 1..(MaxCounter + 3) |-> [b \in Actors |-> IF b = a THEN i - 1 ELSE 0]]],
    \* Dot partial order between the dot of actor a in c and the dot of actor b in d
    dotcmp |-> [a \in Actors |-> [b \in Actors |-> DotCmp(a, c[a], b, d[b])]]]
 Dump == PrintT(<<"E", ToJson(Vector)>>)
